@@ -173,6 +173,10 @@ class SelectorWorld:
                 return getattr(np, v.get("dtype", "int64"))(v["$npint"])
             if "$npfloat" in v:
                 return getattr(np, v.get("dtype", "float64"))(v["$npfloat"])
+            if "$fraction" in v:
+                from fractions import Fraction
+
+                return Fraction(int(v["$fraction"][0]), int(v["$fraction"][1]))
             if "$rs" in v:
                 return np.random.RandomState(int(v["$rs"]))  # a generator instance as random_state
             if "$prefix_of" in v:
@@ -205,6 +209,14 @@ class SelectorWorld:
                 lo = m.get("twin_score_min")
                 hi = m.get("twin_score_max")
                 first = m.get("twin_score_first")
+                if v.get("upto") and m.get("twin_chosen"):
+                    # missed by the first `upto` selections only (the scores recorded at the
+                    # steps that made selections 2..upto; the first pick of the FPS family is
+                    # not scored)
+                    part = [c for ns_at, c in m["twin_chosen"] if ns_at < int(v["upto"]) and np.isfinite(c)]
+                    if part:
+                        lo = min(part)
+                        self.probe("threshold_missed_by_the_first_fit_only")
                 if lo is None or not np.isfinite(lo) or lo <= 0:
                     return None
                 if v.get("type") == "relative":
@@ -448,6 +460,8 @@ class SelectorWorld:
                 return
         if self.pid == "C08" and not op.get("expect"):
             self.c08_prepare(name, m, op)
+        if not warm:
+            m["cold_X"] = op["X"]  # the array (hence the memory layout) of the latest cold fit
         rec = FitRecord(obj, info["axis"], tables=self.pid == "C06")
         self._cur = rec
         self.env.progress.on_step = rec.on_step
@@ -998,10 +1012,12 @@ class SelectorWorld:
                     break
 
     # ------------------------------------------------------------------ C08
-    def quiet_twin(self, cls, params, Xn, yn, record_scores=True):
-        """Cold fit of a fresh estimator in a quiet environment on fresh copies."""
-        Xc = self.heap.pristine(Xn)
-        yc = self.heap.pristine(yn) if yn else None
+    def quiet_twin(self, cls, params, Xn, yn, record_scores=True, layout_of=None):
+        """Cold fit of a fresh estimator in a quiet environment on fresh copies that have
+        the memory layout of the array the history's own cold fit was given (`layout_of`),
+        so that both sides perform the same arithmetic."""
+        Xc = self.heap.twin_copy_like(Xn, layout_of)
+        yc = self.heap.twin_copy(yn) if yn else None
         out = {"exc": None}
         try:
             tw = get_class(cls)(**params)
@@ -1044,7 +1060,7 @@ class SelectorWorld:
 
     def twin_fit(self, name, m, op):
         cls, p = self.twin_params(m)
-        return self.quiet_twin(cls, p, op["X"], op.get("y"))
+        return self.quiet_twin(cls, p, op["X"], op.get("y"), layout_of=m.get("cold_X"))
 
     def c08_prepare(self, name, m, op):
         """Before an object's first fit: the cold fit with the final count, in a quiet
@@ -1057,7 +1073,7 @@ class SelectorWorld:
         p["n_to_select"] = int(m["final"])
         p.pop("score_threshold", None)
         p.pop("score_threshold_type", None)
-        tw = self.quiet_twin(cls, p, op["X"], op.get("y"))
+        tw = self.quiet_twin(cls, p, op["X"], op.get("y"))  # the first fit of the object: its own layout
         if tw["exc"] is not None:
             return
         t, trec = tw["obj"], tw["rec"]
@@ -1071,6 +1087,7 @@ class SelectorWorld:
         if chosen:
             m["twin_score_min"], m["twin_score_max"] = min(chosen), max(chosen)
             m["twin_score_first"] = chosen[0]
+            m["twin_chosen"] = [(int(ns_at), float(sc[b[ns_at]])) for ns_at, sc in trec.scores if ns_at < len(b)]
 
     @staticmethod
     def _epsr(Xp):
